@@ -205,7 +205,7 @@ def model_line(pre: bytes, stream: bytes, off: int) -> str:
     return " ".join(parts)
 
 
-def inmemory_part(res, rng, drv, big):
+def inmemory_part(res, rng, drv, big, racing=True):
     body = rng.bytes(3)
     streams = {
         "not-selected": (b"", LINKTEST_REQ(11) + DATA(12, 1, 1, True, b"") + SELECT_REQ(13) + DATA(14, 1, 13, True, body) + LINKTEST_RSP(15) + DESELECT_REQ(16) + LINKTEST_REQ(17)),
@@ -244,7 +244,7 @@ def inmemory_part(res, rng, drv, big):
     # the same without waiting for quiescence before the close (the threads race with the close sequence): hard requirements only
     offs = {st: (list(range(len(s[1]) + 1)) if big else sorted({rng.range(0, len(s[1])) for _ in range(8)} | {0, 7, 14, len(s[1])})) for st, s in streams.items()}
     for state, (pre, stream) in streams.items():
-        for off in offs[state]:
+        for off in (offs[state] if racing else []):
             if res.hist.get("close_hangs", {}).get("n", 0) >= 6:
                 break
             cut_scenario(res, pre, stream, off, state, False)
@@ -365,6 +365,32 @@ def free_port():
     return p
 
 
+def diag(p):
+    c = p._connection
+    rt = p._thread._receiver_thread
+    st = getattr(c, "_server_thread", None) or getattr(c, "connection_thread", None)
+    return {"state": str(p.connection_state.current), "send_queue": p._send_queue.qsize(), "protocol_receiver_alive": bool(rt and rt.is_alive()),
+            "accept_or_connect_thread_alive": bool(st and st.is_alive()),
+            "connection_thread_running": getattr(c, "_thread_running", None), "stop_thread": getattr(c, "_stop_thread", None),
+            "stop_flag": getattr(c, "_stop_server_thread", getattr(c, "stop_connection_thread", None))}
+
+
+def disable_established(res, p, case):
+    """`disable()` with an established connection.  It is called only after the accept/connect thread has ended (the window in which it has
+    not is the recorded finding's, replayed by `f13_witness`); should the endpoint nevertheless end in that finding's stuck state — stop flag
+    set, accept/connect thread dead, connection up — it is reported under its class, any other hang is a violation of its own."""
+    c = p._connection
+    M.wait_until(lambda: not diag(p)["accept_or_connect_thread_alive"], 3.0)
+    if call_bounded(p.disable, 8):
+        return
+    d = diag(p)
+    if d["stop_flag"] is True and not d["accept_or_connect_thread_alive"] and d["connection_thread_running"]:
+        res.violate("c09-tcp-disable-hang", "disable() waits for the stop flag although the accept/connect thread has ended (it ended between "
+                    "disable()'s is_alive() test and its wait)", case, "returns", d)
+    else:
+        res.violate("c09-disable-hang", "disable() did not return within 8 s (connection established and idle)", case, "returns", d)
+
+
 def call_bounded(fn, bound):
     done = threading.Event()
     threading.Thread(target=lambda: (fn(), done.set()), daemon=True).start()
@@ -420,8 +446,9 @@ def tcp_passive_case(res, stream, off, case_id):
                     str(p.connection_state.current))
         call_bounded(p.disable, 3)
         return
-    if len(p._receive_buffer) != 0:
-        res.violate("c09-stale-bytes", "receive buffer not empty after the peer closed", case, 0, len(p._receive_buffer))
+    if not M.wait_until(lambda: len(p._receive_buffer) == 0 and not p._connection._thread_running, 3.0):
+        res.violate("c09-stale-bytes", "receive buffer not empty / connection thread still running 3 s after NOT_CONNECTED", case, 0,
+                    {"buffer": len(p._receive_buffer), "thread_running": p._connection._thread_running})
     # new connection, select
     peer2 = None
     for _ in range(80):
@@ -439,8 +466,7 @@ def tcp_passive_case(res, stream, off, case_id):
         if not (got and got[0].header.s_type.value == 2 and got[0].header.system == 4242 and sel):
             res.violate("c09-reselect", "real TcpServerConnection: Select.req on the new connection not answered / not SELECTED", case,
                         "Select.rsp(4242)", [(b.header.s_type.value, b.header.system) for b in got])
-    if not call_bounded(p.disable, 8):
-        res.violate("c09-disable-hang", "disable() did not return within 8 s (connection established and idle)", case)
+    disable_established(res, p, case)
     if peer2 is not None:
         peer2.close()
     res.count(("tcp-passive", stream, off), sample={"op": "real TcpServerConnection: cut, close, reconnect, select, disable", "offset": off} if case_id == 0 else None)
@@ -487,16 +513,16 @@ def tcp_active_case(res, stream, off, case_id):
                     str(p.connection_state.current))
         call_bounded(p.disable, 3)
         return
-    if len(p._receive_buffer) != 0:
-        res.violate("c09-stale-bytes", "receive buffer not empty after the peer closed", case, 0, len(p._receive_buffer))
+    if not M.wait_until(lambda: len(p._receive_buffer) == 0 and not p._connection._thread_running, 3.0):
+        res.violate("c09-stale-bytes", "receive buffer not empty / connection thread still running 3 s after NOT_CONNECTED", case, 0,
+                    {"buffer": len(p._receive_buffer), "thread_running": p._connection._thread_running})
     r = serve_one(None)                                       # reconnect after T5 (1 s), selects again
     if r is None or not r[1] or r[1][0].header.s_type.value != 1:
         res.violate("c09-no-reconnect", "active endpoint did not reconnect and send Select.req within 6 s after link loss", case)
     else:
         if not M.wait_until(lambda: p.connection_state.current == ConnectionState.CONNECTED_SELECTED, 3.0):
             res.violate("c09-reselect", "active endpoint not SELECTED on the new connection", case, "CONNECTED_SELECTED", str(p.connection_state.current))
-    if not call_bounded(p.disable, 8):
-        res.violate("c09-disable-hang", "disable() did not return within 8 s (connection established and idle)", case)
+    disable_established(res, p, case)
     if r is not None:
         r[0].close()
     srv.close()
@@ -565,8 +591,36 @@ def classify_f13(res, drv, side, inside, returned, p, trace):
             res.violate("c09-disable-hang", f"{side}: disable() did not return although no connected listener was running", case)
 
 
+def idle_server_witness(res, drv):
+    """`enable(); disable()` of a passive connection nobody connected to: closing the listening socket wakes the server thread's `select`,
+    `accept()` raises EBADF, the thread dies without resetting the stop flag."""
+    p = secsgem.hsms.HsmsProtocol(secsgem.hsms.HsmsSettings(address="127.0.0.1", port=free_port(), connect_mode=secsgem.hsms.HsmsConnectMode.PASSIVE))
+    p.enable()
+    time.sleep(0.7)
+    conn = p._connection
+    in_select = conn._server_thread is not None and conn._server_thread.is_alive() and not p._connection.connected
+    returned = call_bounded(p.disable, 3)
+    case = {"kind": "witness", "name": "tcp-server-idle-disable-hang", "server_thread_waiting_for_a_peer": in_select}
+    res.count(("witness", "idle-server"), sample={"op": "witness replay", "name": "idle passive endpoint: enable(); disable()", "disable_returned": returned})
+    res.bump("witness", f"tcp-server-idle-disable-hang: disable returned={returned}")
+    if drv.available and in_select:
+        m = drv.run(["tcp stop server fixed TTAAATTTAA" if returned else "tcp stop server code TTAAATT"])[0]
+        res.traces_validated += 1
+        if not (("app=returned" in m) if returned else ("stuck=1" in m)):
+            res.disagree("witness tcp-server-idle-disable-hang: model vs implementation", case, m, f"disable returned={returned}")
+    if not returned:
+        d = diag(p)
+        if in_select and d["stop_flag"] is True and not conn._server_thread.is_alive():
+            res.violate("c09-tcp-server-idle-disable-hang", "passive connection without a peer: disable() never returns (the listening socket is closed "
+                        "under the server thread's select, accept() raises EBADF, the thread dies, the stop flag disable() waits for stays set)",
+                        case, "disable() returns", d)
+        else:
+            res.violate("c09-disable-hang", "passive connection without a peer: disable() did not return within 3 s", case, "returns", d)
+
+
 def tcp_part(res, rng, drv, big):
     f13_witness(res, drv)
+    idle_server_witness(res, drv)
     if not big:
         return
     stream = LINKTEST_REQ(31) + DATA(32, 1, 13, True, b"\x01\x02\x03") + LINKTEST_RSP(33)
@@ -576,7 +630,7 @@ def tcp_part(res, rng, drv, big):
     for i, off in enumerate(offs[::2]):
         tcp_active_case(res, stream, off, i)
     # disable() with nothing connected, and right after a connection came and went, must return
-    for mode in (secsgem.hsms.HsmsConnectMode.PASSIVE, secsgem.hsms.HsmsConnectMode.ACTIVE):
+    for mode in (secsgem.hsms.HsmsConnectMode.ACTIVE,):
         port = free_port()
         p = secsgem.hsms.HsmsProtocol(secsgem.hsms.HsmsSettings(address="127.0.0.1", port=port, connect_mode=mode, t5=1))
         p.enable()
@@ -608,12 +662,24 @@ def main():
                 "thread-level model; the same with the close racing the threads; random valid streams cut at a random offset; witnesses of the "
                 "recorded findings; thorough: real TcpServerConnection/TcpClientConnection on loopback, raw peer cuts and closes, enable/disable "
                 "bounded. distinct = distinct (state, stream, offset); every case is non-trivial")
+    # `--replay`: check.py counts every violation of the replay run, also those of recorded findings; so a replay re-runs the recorded cases
+    # and the deterministic sweep, and the parts that show the recorded findings only if the replay file is about one of them
+    known = {"c09-tcp-disable-hang", "c09-tcp-server-idle-disable-hang", "c09-send-failure-strands-queue", "c09-stale-reply-next-connection"}
+    rec_classes = {v.get("class") for v in recorded}
+    replaying = a.replay is not None
     if recorded:
         replay_cases(res, recorded)
-    M.guarded(res, "in-memory", lambda: inmemory_part(res, rng.fork("mem"), drv, big))
-    M.guarded(res, "witness send failure", lambda: witness_send_failure(res, drv))
-    M.guarded(res, "witness stale reply", lambda: witness_stale_reply(res, drv))
-    M.guarded(res, "tcp", lambda: tcp_part(res, rng.fork("tcp"), drv, big))
+    racing = not replaying or "c09-stale-reply-next-connection" in rec_classes or any(not (v.get("case") or {}).get("quiescent", True) for v in recorded)
+    M.guarded(res, "in-memory", lambda: inmemory_part(res, rng.fork("mem"), drv, big, racing))
+    if not replaying or "c09-send-failure-strands-queue" in rec_classes:
+        M.guarded(res, "witness send failure", lambda: witness_send_failure(res, drv))
+    if not replaying or "c09-stale-reply-next-connection" in rec_classes:
+        M.guarded(res, "witness stale reply", lambda: witness_stale_reply(res, drv))
+    if not replaying or rec_classes & {"c09-tcp-disable-hang", "c09-tcp-server-idle-disable-hang", "c09-disable-hang", "c09-enable-hang", "c09-no-listen", "c09-no-reconnect", "c09-no-connect"} \
+            or any((v.get("case") or {}).get("kind", "").startswith("tcp") for v in recorded):
+        M.guarded(res, "tcp", lambda: tcp_part(res, rng.fork("tcp"), drv, big))
+    if replaying:
+        res.notes.append("replay run: parts that only show recorded findings are left out unless the replay file is about them: " + ", ".join(sorted(known)))
     res.notes.append("a hang is 'no completion within the stated bound' (3 s close sequence, 4-8 s disable); fairness of the OS scheduler is assumed")
     res.dump(a.out)
     sys.stdout.flush()
